@@ -141,7 +141,8 @@ impl SearchSpace {
 
         if best.len() < take {
             let others: HashSet<_> = self.union.clone().into();
-            let diff: HashSet<_> = others.difference(&best).cloned().collect();
+            let mut diff: Vec<_> = others.difference(&best).cloned().collect();
+            diff.sort_by(|a, b| (&a.txid, a.index).cmp(&(&b.txid, b.index)));
             let remaining: HashSet<_> = diff.into_iter().take(take - best.len()).collect();
             best.union(&remaining).cloned().collect()
         } else {
